@@ -129,6 +129,9 @@ def parse(out, harnesses):
             h["playback"] = m.group(1).strip()
         if "unwinding assertion" in " ".join(h["failed_checks"]):
             h["status"] = "UNWIND"
+        # a failure that consists only of "construct X is not supported by Kani" is a tool limit, not a refuted obligation
+        if h["status"] == "FAILED" and h["failed_checks"] and all(re.search(r"not currently supported by Kani|is not supported|unsupported", c) for c in h["failed_checks"]):
+            h["status"] = "UNSUPPORTED"
         res["harnesses"][name] = h
     if not all(h in res["harnesses"] for h in harnesses):
         res["compile_error"] = True
